@@ -20,6 +20,7 @@ import hashlib
 import itertools
 import os
 import shutil
+import time
 
 from vlib import core, repo
 
@@ -231,6 +232,7 @@ def schedules(ctx, model_ok, tmp):
     template, ids = build_template(tmp)
     registration_races(ctx, tmp, template)
     begin_boundary_races(ctx, tmp, template, ids)
+    thread_races(ctx, tmp, template)
     req, impl = [], []
 
     def viol(what, key, replay):
@@ -426,6 +428,11 @@ def registration_races(ctx, tmp, template):
                                 lambda b: b.registry.registerDatasetType(DatasetType("gb", {"instrument", "physical_filter"}, "StructuredDataDict", universe=b.dimensions)), "lock"),
         "new-dimension-group-at-sync": (lambda b: b.registry.registerDatasetType(DatasetType("ga", {"instrument", "physical_filter"}, "StructuredDataDict", universe=b.dimensions)),
                                         lambda b: b.registry.registerDatasetType(DatasetType("gb", {"instrument", "physical_filter"}, "StructuredDataDict", universe=b.dimensions)), "sync"),
+        # ... both find the group's tables missing before either creates them (B's whole registration inside A's
+        # "table is not there" -> CREATE TABLE window)
+        "new-dimension-group-at-create-table": (
+            lambda b: b.registry.registerDatasetType(DatasetType("ga", {"instrument", "physical_filter"}, "StructuredDataDict", universe=b.dimensions)),
+            lambda b: b.registry.registerDatasetType(DatasetType("gb", {"instrument", "physical_filter"}, "StructuredDataDict", universe=b.dimensions)), "create-table"),
         "same-run": (lambda b: b.registry.registerRun("race_run"), lambda b: b.registry.registerRun("race_run"), "sync"),
         # one name, two collection types
         "same-name-other-type": (lambda b: b.registry.registerRun("race_coll"), lambda b: b.registry.registerCollection("race_coll", CollectionType.TAGGED), "sync"),
@@ -451,7 +458,17 @@ def registration_races(ctx, tmp, template):
                 fired.append(1)
                 out_b.append(call(lambda: fb(B)))
 
-        if where == "sync":
+        if where == "create-table":
+            orig_g = db.getExistingTable
+
+            def getExistingTable(name_, spec_):
+                t_ = orig_g(name_, spec_)
+                if t_ is None:
+                    run_b()
+                return t_
+
+            db.getExistingTable = getExistingTable
+        elif where == "sync":
             orig = db.sync
 
             def sync(*a, **k):
@@ -478,8 +495,144 @@ def registration_races(ctx, tmp, template):
         ctx.count(f"race:{name}")
         ctx.nontrivial.add(("race", name))
         if got not in seq:
-            viol(f"registration race {name} (B inside A's {'lookup-to-insert' if where == 'sync' else 'refresh-to-lock'} window): outcomes A={out_a} B={out_b[0]}, "
+            win = {"sync": "lookup-to-insert", "lock": "refresh-to-lock", "create-table": "table-missing-to-CREATE-TABLE"}[where]
+            viol(f"registration race {name} (B inside A's {win} window): outcomes A={out_a} B={out_b[0]}, "
                  f"afterwards {got[2][:160]}; sequential orders give {sorted(seq)}"[:900], f"c20:race:{name}", {"kind": "race", "scenario": name, "got": list(got)})
+        shutil.rmtree(root, ignore_errors=True)
+
+
+def thread_races(ctx, tmp, template):
+    """Two clients in two real threads (what the deterministic injections cannot do: one client *waiting* for the other).
+
+    * lock wait: A holds a transaction open (put, pause) while B starts a put of another data ID; A then commits.  Both must
+      succeed — B waits for the write lock from the start of its transaction.
+    * failed block against a put into the same slot: A's block `put(slot); raise` is undone while B's put of the same dataset
+      type, data ID and run waits; A's undo of its artifact is held until B is done or 2 s have passed.  Whatever the order, the
+      dataset visible at the end must be readable with its writer's content."""
+    import threading
+
+    from lsst.daf.butler import Butler
+    from lsst.daf.butler.datastore import DatastoreTransaction
+
+    def viol(what, key, replay):
+        ctx.violations.append(core.Violation(what=what, key=key, replay=replay))
+
+    def fresh(tag):
+        root = os.path.join(tmp, tag)
+        shutil.rmtree(root, ignore_errors=True)
+        shutil.copytree(template, root)
+        return root
+
+    class Boom(Exception):
+        pass
+
+    # ---- 1. lock wait
+    for rep in range(2 if ctx.quick() else 8):
+        root = fresh("t_lock")
+        a_in, res = threading.Event(), {}
+
+        def thread_a():
+            try:
+                A = Butler.from_config(root, writeable=True, run="r1")
+                with A.transaction():
+                    A.put({"who": "A"}, "dt", instrument="I", detector=7)
+                    a_in.set()
+                    time.sleep(0.4)
+                res["A"] = "ok"
+            except Exception as e:
+                res["A"] = f"{type(e).__name__}: {str(e)[:80]}"
+                a_in.set()
+
+        def thread_b():
+            try:
+                B = Butler.from_config(root, writeable=True, run="r1")
+                a_in.wait(20)
+                B.put({"who": "B"}, "dt", instrument="I", detector=8)
+                res["B"] = "ok"
+            except Exception as e:
+                res["B"] = f"{type(e).__name__}: {str(e)[:80]}"
+
+        ta, tb = threading.Thread(target=thread_a), threading.Thread(target=thread_b)
+        ta.start(), tb.start()
+        ta.join(60), tb.join(60)
+        ctx.evaluations += 1
+        ctx.count("thread-race:lock-wait")
+        ctx.nontrivial.add(("thread", "lock-wait"))
+        if res.get("A") != "ok" or res.get("B") != "ok":
+            viol(f"client B's put of another data ID, started while client A's transaction was open, and A's commit: A -> {res.get('A')}, B -> {res.get('B')}; "
+                 "in either sequential order both succeed", "c20:thread:lock-wait", {"kind": "thread-race", "scenario": "lock-wait", "outcomes": res})
+            break
+        shutil.rmtree(root, ignore_errors=True)
+
+    # ---- 2. a failed block and a put into the same slot
+    orig_rollback = DatastoreTransaction.rollback
+    for rep in range(2 if ctx.quick() else 6):
+        root = fresh("t_slot")
+        a_in, b_done, res = threading.Event(), threading.Event(), {}
+        a_thread = []
+
+        def rollback(self, *a, **k):
+            if a_thread and threading.get_ident() == a_thread[0]:
+                b_done.wait(2.0)  # let the other client finish first if it can
+            return orig_rollback(self, *a, **k)
+
+        def thread_a2():
+            a_thread.append(threading.get_ident())
+            try:
+                A = Butler.from_config(root, writeable=True, run="r1")
+                with A.transaction():
+                    A.put({"who": "A"}, "dt", instrument="I", detector=6)
+                    a_in.set()
+                    time.sleep(0.2)
+                    raise Boom()
+            except Boom:
+                res["A"] = "block failed"
+            except Exception as e:
+                res["A"] = f"{type(e).__name__}: {str(e)[:80]}"
+                a_in.set()
+
+        def thread_b2():
+            try:
+                B = Butler.from_config(root, writeable=True, run="r1")
+                a_in.wait(20)
+                res["ref"] = B.put({"who": "B"}, "dt", instrument="I", detector=6)
+                res["B"] = "ok"
+            except Exception as e:
+                res["B"] = f"{type(e).__name__}: {str(e)[:80]}"
+            b_done.set()
+
+        DatastoreTransaction.rollback = rollback
+        try:
+            ta, tb = threading.Thread(target=thread_a2), threading.Thread(target=thread_b2)
+            ta.start(), tb.start()
+            ta.join(60), tb.join(60)
+        finally:
+            DatastoreTransaction.rollback = orig_rollback
+        ctx.evaluations += 1
+        ctx.count("thread-race:failed-block-vs-put-same-slot")
+        ctx.nontrivial.add(("thread", "same-slot"))
+        problems = []
+        if res.get("A") != "block failed":
+            problems.append(f"A -> {res.get('A')}")
+        fresh_b = Butler.from_config(root)
+        found = fresh_b.find_dataset("dt", instrument="I", detector=6, collections="r1")
+        if res.get("B") == "ok":
+            if found is None:
+                problems.append("B's put succeeded but its dataset is not registered")
+            else:
+                try:
+                    got = fresh_b.get(found)
+                    if got != {"who": "B"}:
+                        problems.append(f"the dataset visible at the end reads back {got}, its writer B stored {{'who': 'B'}}")
+                except Exception as e:
+                    problems.append(f"the dataset B stored is visible at the end but cannot be read ({type(e).__name__})")
+        elif found is not None:
+            problems.append(f"B -> {res.get('B')} but a dataset is registered in the slot")
+        if problems:
+            viol("client A's block `put(slot); raise` undone while client B puts into the same slot (A's undo held until B is done or 2 s have passed): "
+                 + "; ".join(problems), "c20:thread:failed-block-vs-put", {"kind": "thread-race", "scenario": "failed-block-vs-put-same-slot", "problems": problems})
+            break
+        del fresh_b
         shutil.rmtree(root, ignore_errors=True)
 
 
